@@ -204,24 +204,31 @@ def unescOctal (c : Char) (cs : Text) : Option (Char × Text) :=
     (radixU 8 255 (c :: d1)).map (fun n => (Char.ofNat n, cs.drop d1.length))
   else none
 
-/-- `unescaper::unescape` (errors collapsed to `none`) -/
+/-- the character denoted by an escape: `e` is the character after the backslash, `rest` what follows -/
+def unescOne (e : Char) (rest : Text) : Option (Char × Text) :=
+  if e = 'b' then some ('\x08', rest)
+  else if e = 'f' then some ('\x0c', rest)
+  else if e = 'n' then some ('\n', rest)
+  else if e = 'r' then some ('\r', rest)
+  else if e = 't' then some ('\t', rest)
+  else if e = '\'' ∨ e = '"' ∨ e = '\\' ∨ e = '/' then some (e, rest)
+  else if e = 'u' then unescUnicode rest
+  else if e = 'x' then unescByte rest
+  else unescOctal e rest
+
+def afterBackslash : Text → Option (Char × Text)
+  | [] => none
+  | e :: rest => unescOne e rest
+
+/-- `unescaper::unescape` (errors collapsed to `none`); `fuel` ≥ length -/
 def unescape : Nat → Text → Text → Option Text
   | 0, _, acc => some acc.reverse
   | _, [], acc => some acc.reverse
   | fuel + 1, c :: cs, acc =>
     if c ≠ '\\' then unescape fuel cs (c :: acc)
-    else match cs with
-      | [] => none
-      | e :: rest =>
-        if e = 'b' then unescape fuel rest ('\x08' :: acc)
-        else if e = 'f' then unescape fuel rest ('\x0c' :: acc)
-        else if e = 'n' then unescape fuel rest ('\n' :: acc)
-        else if e = 'r' then unescape fuel rest ('\r' :: acc)
-        else if e = 't' then unescape fuel rest ('\t' :: acc)
-        else if e = '\'' ∨ e = '"' ∨ e = '\\' ∨ e = '/' then unescape fuel rest (e :: acc)
-        else if e = 'u' then (match unescUnicode rest with | some (ch, r) => unescape fuel r (ch :: acc) | none => none)
-        else if e = 'x' then (match unescByte rest with | some (ch, r) => unescape fuel r (ch :: acc) | none => none)
-        else (match unescOctal e rest with | some (ch, r) => unescape fuel r (ch :: acc) | none => none)
+    else match afterBackslash cs with
+      | some (ch, r) => unescape fuel r (ch :: acc)
+      | none => none
 
 /-! #### deserialize -/
 
